@@ -87,3 +87,11 @@ reg('C11', 'model_checking', 'G + X + H (generated signature family + history ex
     'About 580 (quick) / 1700 (thorough) generated signatures over 20 parameter kinds are invoked under two foreign ABIs with every argument form and boundary value; guest code written against an independent ABI table records the raw bits it receives, the call count and the executing instance; results are driven from the guest with boundary bit patterns. Histories over three instances bound to two libraries exporting the same names (mbox by-name, dylib) check that names resolve per instance and per incarnation and that function addresses are stable and pass back faithfully.',
     'Signature shapes beyond two parameters by rotation; the generator\'s ABI table and reference struct images are hand-written; history depth 5/6.',
     'DESIGN.md section 3, C11')
+
+ENGINES.append(dict(name='G', path='lib/gengine.py', serves_properties=['C01', 'C02', 'C20'],
+                    kind_free_text='program-grid / type-graph explorer: one probe program per (state, form) compiled against the tree under test with a precompiled prelude; the compiler is the transition function'))
+
+reg('C01', 'model_checking', 'G (type-graph explorer, compiler as transition function)', 'explicit-state exploration of the wrapper type graph: every (state, form) probe compiled against the real headers, accepted probes classified by static_assert traits',
+    'The graph whose states are (wrapper, C++ type) is explored with ~170 (quick) / ~330 (thorough) forms per state - every operator with every operand class, indexing, dereference, address-of, RLBox casts, opaque conversion and 43 conversion contexts - one real compilation per edge with RLBox\'s compile-time checks ON. A plain type may be reached only through a named unwrapper or a null test of a tainted pointer; comparisons involving sandbox memory must be exactly hints; hints are not verifiable; tainted_opaque has no operation.',
+    'Finite grammar of forms; explicit type punning is outside the alphabet; g++ primary, clang++ repeats the conversion contexts in the thorough tier.',
+    'DESIGN.md section 3, C01')
